@@ -112,6 +112,10 @@ type paths struct {
 	exact  [2]*regexp2.Regexp
 	loop   [2]*regexp2.Regexp
 	prefix [2]*regexp2.Regexp
+	// the class as a leading nullable loop followed by another atom (the first-character analysis
+	// merges the follower's set into a copy of the loop's set): [..]*! and [..]?m
+	star [2]*regexp2.Regexp
+	opt  [2]*regexp2.Regexp
 }
 
 func options(c Case) regexp2.RegexOptions {
@@ -166,6 +170,12 @@ func build(c Case) (*paths, error) {
 			return nil, err
 		}
 		if p.prefix[i], err = regexp2.Compile(`x*`+c.Text, co...); err != nil {
+			return nil, err
+		}
+		if p.star[i], err = regexp2.Compile(c.Text+`*!`, co...); err != nil {
+			return nil, err
+		}
+		if p.opt[i], err = regexp2.Compile(c.Text+`?m`, co...); err != nil {
 			return nil, err
 		}
 	}
@@ -254,6 +264,22 @@ func check(c Case) error {
 			got, _ = p.prefix[i].MatchRunes(in1)
 			if got != want {
 				return fail("x*[..] ("+name+")", got)
+			}
+			// on r followed by the follower the first match is (0,2) exactly when r is a member
+			for _, f := range []struct {
+				re   *regexp2.Regexp
+				y    rune
+				text string
+			}{{p.star[i], '!', "[..]*!"}, {p.opt[i], 'm', "[..]?m"}} {
+				y := f.y
+				if c.I && r == unicode.ToUpper(y) {
+					continue // under IgnoreCase the follower itself matches r
+				}
+				m, err := f.re.FindRunesMatch([]rune{r, y})
+				got := err == nil && m != nil && m.RuneIndex == 0 && m.RuneLength == 2
+				if got != want {
+					return fail(f.text+" on r+follower ("+name+")", got)
+				}
 			}
 		}
 		if structured && in && out {
